@@ -79,14 +79,14 @@ Section Text.
   Qed.
 
   Lemma s2t_concat_steps ts :
-    s2t (fold_right String.append "" (flat_map (fun t => [action_line (t_act t); serialize num_text (t_post t)]) ts)) =
-    flat_map (fun t => s2t (action_line (t_act t)) ++ s2t (serialize num_text (t_post t))) ts.
+    s2t (fold_right String.append "" (flat_map (fun t => [action_line (t_act t); serialize_in_order num_text (t_post t)]) ts)) =
+    flat_map (fun t => s2t (action_line (t_act t)) ++ s2t (serialize_in_order num_text (t_post t))) ts.
   Proof.
     induction ts as [|t ts IH]; [reflexivity|]. cbn [flat_map app fold_right]. rewrite !s2t_app, IH, <- app_assoc. reflexivity.
   Qed.
 
   Lemma yields_steps m ts : Forall step_text_ok ts ->
-    yields m (flat_map (fun t => s2t (action_line (t_act t)) ++ s2t (serialize num_text (t_post t))) ts)
+    yields m (flat_map (fun t => s2t (action_line (t_act t)) ++ s2t (serialize_in_order num_text (t_post t))) ts)
              (flat_map flatten (flat_map step_sexps ts)).
   Proof.
     induction 1 as [|t ts (Hc & Hs & Hn) _ IH]; intros rest; [reflexivity|].
@@ -98,9 +98,9 @@ Section Text.
   (* the exported text parses to the trajectory's token tree *)
   Theorem parse_export m t0 ts :
     state_ok (t_pre t0) = true -> nums_clean num_text (t_pre t0) -> Forall step_text_ok (t0 :: ts) ->
-    exists text, export_text num_text (t0 :: ts) = Ok text /\ parse m (s2t text) = Ok (traj_sexp t0 ts).
+    exists text, export_text_with (serialize_in_order num_text) (t0 :: ts) = Ok text /\ parse m (s2t text) = Ok (traj_sexp t0 ts).
   Proof.
-    intros Hs Hn Hst. unfold export_text, export. cbn [bind].
+    intros Hs Hn Hst. unfold export_text_with, export_with. cbn [bind].
     eexists. split; [reflexivity|].
     rewrite concat_wrapped. rewrite !s2t_app. cbn [fold_right]. rewrite s2t_app, s2t_concat_steps.
     change (s2t "(") with [LP]. change (s2t ")") with [RP].
@@ -255,7 +255,7 @@ Section Parse.
     den_ok (t_pre t0) -> nums_clean num_text (t_pre t0) ->
     Forall (step_text_ok num_text) (t0 :: ts) -> Forall step_ok (t0 :: ts) -> chain_from (t_post t0) ts ->
     exists text tree O,
-      export_text num_text (t0 :: ts) = Ok text /\ parse m (s2t text) = Ok tree /\
+      export_text_with (serialize_in_order num_text) (t0 :: ts) = Ok text /\ parse m (s2t text) = Ok tree /\
       parse_trajectory dom parse_num problem agents strict tree = Ok O /\
       List.length (ob_components O) = List.length (t0 :: ts) /\
       Forall2 (fun t c => ocall_calls (oc_call c) = tact_calls (t_act t) /\
